@@ -355,6 +355,53 @@ func (c *caseT) vmHandle(net, ns, vm string) {
 		func() string { return vmipam.CreateVMHandleID(net, ns, vm) })
 }
 
+// the chains with fixed names, in the order of Model.static_chains
+var staticChains = []string{rules.ChainFilterInput, rules.ChainFilterForward, rules.ChainFilterOutput, rules.ChainRawPrerouting,
+	rules.ChainNATPostrouting, rules.ChainRawUntrackedFlows, rules.ChainRawBPFUntrackedPolicy, rules.ChainFailsafeIn,
+	rules.ChainFailsafeOut, rules.ChainNATOutgoing, rules.ChainEgressDSCP, rules.ChainFIPDnat, rules.ChainFIPSnat,
+	rules.ChainCIDRBlock, rules.ChainWorkloadToHost, rules.ChainFromWorkloadDispatch, rules.ChainToWorkloadDispatch,
+	rules.ChainARPDispatch, rules.ChainDispatchToHostEndpoint, rules.ChainDispatchFromHostEndpoint,
+	rules.ChainDispatchToHostEndpointForward, rules.ChainDispatchFromHostEndPointForward, rules.ChainDispatchSetEndPointMark,
+	rules.ChainDispatchFromEndPointMark, rules.ChainForwardCheck, rules.ChainForwardEndpointMark,
+	rules.ChainSetWireguardIncomingMark, rules.ChainRpfSkip, rules.RPFChain}
+
+func (c *caseT) static(k int) {
+	c.add(fmt.Sprintf("IdStaticChain %d%%nat", k), fmt.Sprintf("static(%d)", k), func() string { return staticChains[k] })
+}
+
+// staticCase: fixed chain names next to endpoint/profile/policy chains whose identity spells the rest of a fixed name
+func staticCase(r *rng, c *caseT, withArpClash bool) {
+	c.tags["theme:static"] = true
+	nft := r.intn(2) == 0
+	for i := 0; i < 6; i++ {
+		k := r.intn(len(staticChains))
+		c.static(k)
+		rest := strings.TrimPrefix(staticChains[k], "cali-")
+		c.endpoint(r.pick(endpointPrefixes), rest, nft)
+		c.profile(r.intn(2) == 0, nft, rest)
+		// every way of cutting the fixed name into a family prefix and an interface name
+		for _, p := range endpointPrefixes {
+			if strings.HasPrefix(staticChains[k], p) && len(staticChains[k]) > len(p) {
+				if staticChains[k] == rules.ChainARPDispatch && p == rules.WorkloadARPPfx && !withArpClash {
+					continue
+				}
+				c.tags["static-cut"] = true
+				c.endpoint(p, staticChains[k][len(p):], nft)
+			}
+		}
+	}
+	for _, p := range endpointPrefixes {
+		if p != rules.WorkloadARPPfx {
+			c.endpoint(p, "dispatch", nft)
+		}
+	}
+	if withArpClash {
+		c.tags["arp-dispatch-clash"] = true
+		c.static(17)
+		c.endpoint(rules.WorkloadARPPfx, "dispatch", nft)
+	}
+}
+
 // ---------- generators ----------
 
 const nameChars = "abcdefghijklmnopqrstuvwxyz0123456789-."
@@ -865,6 +912,8 @@ func main() {
 		c := newCase()
 		if i < 6 || i%25 == 0 {
 			colliderCase(r, c, i)
+		} else if i == 6 || i%40 == 7 {
+			staticCase(r, c, i == 6)
 		} else {
 			genCase(r, c)
 		}
